@@ -255,6 +255,10 @@ pub fn sticky_key(key: &str) -> bool {
     })
 }
 
+pub fn clear_sticky() {
+    STICKY.with(|s| *s.borrow_mut() = None);
+}
+
 // ------------------------------------------------------------------------------------------------ observations
 
 pub fn tkey(t: &SignedEntityType) -> String {
@@ -275,6 +279,8 @@ pub struct SubRec {
     pub by: PartyIdx,
     pub producer: PartyIdx,
     pub sig: SingleSignature,
+    /// the message (hash) that was signed
+    pub signed_text: String,
     /// own label, own signature, right key set, right message, untouched index list
     pub honest: bool,
     /// a row with this label and this very signature existed right after the submission
@@ -322,6 +328,11 @@ pub struct RunOpts {
     pub signers_by_true_key: bool,
     /// C16: a tick in SIGNING must certify when the signatures honest parties got stored reach the quorum alone
     pub expect_certificate_on_honest_quorum: bool,
+    /// C15: a signer signs each signed entity once: a party whose submission for the entity was acknowledged
+    /// (registered or buffered) does not submit for it again, whatever happens to the aggregator afterwards
+    /// (unless the aggregator announces another message for the entity than the one the party signed: the harness
+    /// cannot predict the message of an entity before the aggregator has entered the epoch, a real signer can)
+    pub sign_once: bool,
 }
 
 pub struct Run {
@@ -335,11 +346,11 @@ pub struct Run {
     pub tolerated: Vec<String>,
     pub tolerated_hits: Vec<(String, String)>,
     pub op_index: usize,
-    genesis_signer: GenesisSigner,
+    pub genesis_signer: GenesisSigner,
     trace_labels: Vec<String>,
 }
 
-struct MapRetriever(BTreeMap<String, Certificate>);
+pub struct MapRetriever(pub BTreeMap<String, Certificate>);
 
 #[async_trait::async_trait]
 impl CertificateRetriever for MapRetriever {
@@ -351,7 +362,7 @@ impl CertificateRetriever for MapRetriever {
     }
 }
 
-struct MapRequester(BTreeMap<String, CertificateMessage>);
+pub struct MapRequester(pub BTreeMap<String, CertificateMessage>);
 
 #[async_trait::async_trait]
 impl mithril_client::certificate_client::CertificateAggregatorRequest for MapRequester {
@@ -433,7 +444,7 @@ impl Run {
         self.violation.clone().or_else(|| self.tolerated_hits.first().cloned())
     }
 
-    fn node(&self) -> &Node {
+    pub fn node(&self) -> &Node {
         self.node.as_ref().expect("node running")
     }
 
@@ -744,6 +755,12 @@ impl Run {
             if s.mask & (1 << by) == 0 {
                 continue;
             }
+            if self.opts.sign_once
+                && self.obs.subs.get(&tkey(&t)).is_some_and(|v| v.iter().any(|r| r.by == by && r.signed_text == signed_text && matches!(r.outcome, Submitted::Registered | Submitted::Buffered)))
+            {
+                self.label("sign:already-acknowledged");
+                continue;
+            }
             let producer = match s.source {
                 Source::Own => by,
                 Source::CopyOf(j) => {
@@ -847,6 +864,7 @@ impl Run {
                     by,
                     producer,
                     sig: sig.clone(),
+                    signed_text: signed_text.clone(),
                     honest,
                     stored,
                     outcome,
@@ -884,6 +902,11 @@ impl Run {
         }
         if self.opts.rows {
             self.check_rows().await;
+        }
+        if !self.opts.certificates && !self.opts.rows {
+            // C15 looks at the store itself at chosen moments (decoding every stored certificate after every
+            // operation is the dominant cost of a long history)
+            return;
         }
         let certs = match self.node().certificates().await {
             Ok(c) => c,
